@@ -101,7 +101,7 @@ def plan(tier):
             jobs.append({"part": "lengths", "kind": kind, "lo": lo, "hi": lo + 400})
     for i in range(n):
         jobs.append({"part": "direct", "examples": 500 if tier == "quick" else 10000})
-        jobs.append({"part": "scenario", "op": ["read", "write"][i % 2], "examples": 60 if tier == "quick" else 1200})
+        jobs.append({"part": "scenario", "op": ["read", "write"][i % 2], "examples": 60 if tier == "quick" else 1200, "encap_refusal": i % 4 == 3})
         jobs.append({"part": "lifecycle", "examples": 8 if tier == "quick" else 60})
     return jobs
 
@@ -151,7 +151,9 @@ def run_job(ctx, job):
         ctx.evaluations -= 1  # frames are what is counted here; the scenario itself is not a case
         return run.of("C11"), True, ["scenario"]
 
-    hyp_search(ctx, "scenario", c01.cases(job["op"], many=True), check_case, job["examples"], sample_of=c01.sample_of)
+    # (with requests that cannot succeed and frames / services the target refuses - among them a connected frame answered with
+    # "invalid session handle": whatever the driver does next, its frames carry the handle and connection id it was given last)
+    hyp_search(ctx, "scenario", c01.cases(job["op"], many=True, invalid=True, encap_refusal=job.get("encap_refusal", False)), check_case, job["examples"], sample_of=c01.sample_of)
 
 
 def replay(ctx, kind, case):
